@@ -365,6 +365,9 @@ def r6_persist_errors(ctx, cfg):
 
 
 def run(ctx, cfg=CFG):
+    # E-dirty (rules/dirtyflag.py): every dirty flag found in the crate whose saver lives in this property's modules
+    from . import dirtyflag
+    dirtyflag.rule_dirty(ctx, "C04.R7", ["cascette_client_storage"], file_pat=r"src/(index|storage|container|installation)", floor=0)
     # "the latest write for a key is the one read back" rests on the index lookup precedence that C05 decides: update section
     # before sorted section, newest entry first at every level, tombstones hide - the same rule instances are obligations here
     from . import c05
@@ -383,4 +386,4 @@ def run(ctx, cfg=CFG):
 
 
 from .selftest import for_families as _ff  # noqa: E402
-selftest = _ff(['gate', 'slice', 'errflow'])
+selftest = _ff(['gate', 'slice', 'errflow', 'dirty'])
